@@ -61,6 +61,7 @@ type Fidelity struct {
 	CCookie, RCookie       []KV
 	CUA, RUA               string
 	CRef, RRef             string
+	HUA, HRef              string `json:",omitempty"` // User-Agent / Referer configured as request-level HEADERS; only when the dedicated setters are not used at all
 	CPath, RPath           string // path parameter :id
 	CExt, RExt             string `json:",omitempty"` // path parameter :ext (suffix of the last segment); the client-level one is always set, possibly to ""
 	RExtSet                bool   `json:",omitempty"` // the request sets :ext itself (possibly to "": an empty request-level value still takes precedence)
@@ -71,10 +72,10 @@ type Fidelity struct {
 	BodyKind               string // none | raw | form | multipart | json
 	Method                 string
 	BaseURL                bool
-	Twice                  bool // send the same configuration twice: the parsed request must be identical
-	DisablePathNormalizing bool `json:",omitempty"`
+	Twice                  bool   // send the same configuration twice: the parsed request must be identical
+	DisablePathNormalizing bool   `json:",omitempty"`
 	Idx                    string `json:",omitempty"` // a second path parameter :idx, whose name starts with the name of the first (:id)
-	URLQuery               []KV `json:",omitempty"` // query components written into the URL itself (values may contain the characters a query may carry unescaped: ? / : @)
+	URLQuery               []KV   `json:",omitempty"` // query components written into the URL itself (values may contain the characters a query may carry unescaped: ? / : @)
 }
 
 type seenReq struct {
@@ -222,6 +223,12 @@ func checkFidelity(c Fidelity) vk.Verdict {
 		if c.RUA != "" {
 			r.SetUserAgent(c.RUA)
 		}
+		if c.HUA != "" {
+			r.SetHeader("User-Agent", c.HUA) // the user agent as an ordinary header (no SetUserAgent anywhere)
+		}
+		if c.HRef != "" {
+			r.SetHeader("Referer", c.HRef)
+		}
 		if c.RRef != "" {
 			r.SetReferer(c.RRef)
 		}
@@ -319,6 +326,12 @@ func checkFidelity(c Fidelity) vk.Verdict {
 	w.Referer = c.CRef
 	if c.RRef != "" {
 		w.Referer = c.RRef
+	}
+	if c.HUA != "" {
+		w.UA = c.HUA
+	}
+	if c.HRef != "" {
+		w.Referer = c.HRef
 	}
 	for _, kv := range append(append(fold(c.CQuery), fold(c.RQuery)...), c.URLQuery...) {
 		w.Query = append(w.Query, kv.K+"="+kv.V)
@@ -496,6 +509,12 @@ func genFidelity(t *rapid.T) Fidelity {
 	}
 	if rapid.Bool().Draw(t, "rref") {
 		c.RRef = "http://rref/" + cval.Draw(t, "rrefv")
+	}
+	if c.CUA == "" && c.RUA == "" && rapid.Bool().Draw(t, "hua") {
+		c.HUA = "hua-" + cval.Draw(t, "huav")
+	}
+	if c.CRef == "" && c.RRef == "" && rapid.Bool().Draw(t, "href") {
+		c.HRef = "http://href/" + cval.Draw(t, "hrefv")
 	}
 	c.CPath = pval.Draw(t, "cpath")
 	if c.Ext = rapid.Bool().Draw(t, "ext"); c.Ext {
